@@ -89,6 +89,12 @@ class ExactPchip:
         formula and inside the cubic coefficients."""
         q = F(q)
         i = self.interval(q)
+        if 0 < i and q == self.x[i]:
+            # at an interior knot either neighbouring cubic is a legitimate way to evaluate: take the larger scale
+            return max(self._term_scale_on(q, i - 1), self._term_scale_on(q, i))
+        return self._term_scale_on(q, i)
+
+    def _term_scale_on(self, q: F, i: int) -> F:
         h = self.h[i]
         t = abs(q - self.x[i])
         r = t / h
